@@ -867,8 +867,10 @@ func (f *Frame) convert(in ssa.Instruction, x ssa.Value, to types.Type, reach Te
 	}
 	if fs == SSlice && ts == SStr {
 		c.declare("str_of_bytes", fmt.Sprintf("(declare-fun str_of_bytes (%s %s %s) Str)", arrSort(c.I(), c.sortOf(types.Typ[types.Uint8])), c.I(), c.I()))
-		c.note("[]byte to string conversion (uninterpreted function of the contents)")
-		return c.fresh("str", SStr)
+		c.note("[]byte to string conversion (contents uninterpreted, length kept)")
+		r := c.fresh("str", SStr)
+		c.assume(tEq(app(c.I(), "str_len", r), app(c.I(), "sl_len", v)), false)
+		return r
 	}
 	c.note(fmt.Sprintf("conversion %s -> %s (havoc)", from, to))
 	r := c.fresh("conv", ts)
